@@ -308,6 +308,55 @@ fn main() {
         emit(&mut w, pids, ops);
     }
 
+    if args.thorough() {
+        // bounded-exhaustive: every history of length <= 3 over 2 pids, 3 states
+        let pids = vec![10, 11];
+        let mut alphabet = vec![];
+        for p in [10, 11] {
+            for st in [St::Running, St::Stopped(19), St::Exited(0)] {
+                alphabet.push(Op::Insert(p, st));
+                alphabet.push(Op::Update(p, st));
+            }
+        }
+        for i in [0usize, 1] {
+            alphabet.push(Op::Remove(i));
+            alphabet.push(Op::SetCurrent(i));
+        }
+        alphabet.push(Op::RemoveFinished);
+        let mut stack: Vec<Vec<usize>> = vec![vec![]];
+        while let Some(seq) = stack.pop() {
+            if !seq.is_empty() {
+                // respect the precondition of insert along the way
+                let mut list = JobList::new();
+                let mut ok = true;
+                let ops: Vec<Op> = seq.iter().map(|i| alphabet[*i].clone()).collect();
+                for op in &ops {
+                    if let Op::Insert(p, _) = op {
+                        if let Some(i) = list.find_by_pid(Pid(*p)) {
+                            if list[i].state.is_alive() {
+                                ok = false;
+                                break;
+                            }
+                        }
+                    }
+                    apply(&mut list, op);
+                }
+                if !ok {
+                    continue;
+                }
+                w.count("exhaustive");
+                emit(&mut w, &pids, &ops);
+            }
+            if seq.len() < 3 {
+                for i in 0..alphabet.len() {
+                    let mut s2 = seq.clone();
+                    s2.push(i);
+                    stack.push(s2);
+                }
+            }
+        }
+    }
+
     let n = args.scale(600, 12000);
     for k in 0..n {
         let mut r = rng.fork(k as u64);
